@@ -58,12 +58,14 @@ def relevant(modname, modules):
     return modules is None or modname in modules
 
 
-def eval_tainted_alts(repo, rule, modules=None, keyprefix=""):
+def eval_tainted_alts(repo, rule, modules=None, keyprefix="", fq_filter=None):
     it = get_interp(repo)
     seen = {}
     for key, f in sorted(it.tainted_alts.items(), key=lambda kv: (kv[1]["fq"], kv[1]["tag"][1:3], str(kv[0]))):
         m = f["module"]
         if not relevant(m.name, modules):
+            continue
+        if fq_filter is not None and not fq_filter(f["fq"]):
             continue
         a, b = nf(f["a"]), nf(f["b"])
         strict = eq_mod_raise(a, b)
